@@ -224,14 +224,32 @@ def nll_names(spec):
     return ["nll_attach_ind", "nll_attach"]
 
 
-def observe(model, spec, ds):
-    """Run the implementation on `ds`; returns {name: tensor | WeightedTensor} (+ '__exc__': (stage, type, message))."""
+def all_observed(ds):
+    """The same tensors (same stored numbers, fills included) with every entry of every real visit declared observed."""
+    ds = copy.deepcopy(ds)
+    real = (~padded_visits(ds))[:, :, None].expand(ds.mask.shape)
+    ds.mask = torch.where(real, torch.ones_like(ds.mask), ds.mask)
+    return ds
+
+
+def observe(model, spec, ds, preload=None):
+    """Run the implementation on `ds`; returns {name: tensor | WeightedTensor} (+ '__exc__': (stage, type, message)).
+
+    `preload`: another dataset of the same cohort loaded (and read) in the same state BEFORE `ds` is loaded over it - the
+    state of a model that already held data when new data are given to it."""
     out = {}
     stage = "put_data_variables"
     gaussian = spec["noise"].startswith("gaussian")
     scalar = spec["noise"] == "gaussian-scalar" or spec["dim"] == 1
     try:
-        st = fresh_state(model, ds)
+        if preload is None:
+            st = fresh_state(model, ds)
+        else:
+            st = fresh_state(model, preload)
+            for k in nll_names(spec):
+                st[k]
+            stage = "put_data_variables over data already held"
+            model.put_data_variables(st, ds)
         n = ds.n_individuals
         stage = "latent variables"
         for v, shifts in LATENT_SHIFT.items():
@@ -684,6 +702,33 @@ def run_stats_base(acc, name_model, model, spec, shape, pattern, fills, extras=E
         acc.nontriv(repr(("stats", name_model, shape, pattern, "0", extra)))
         res = compare(zero[extra], out0, "padding", case, "0")
         acc.outcome(f"stats:padding:{res}")
+    # the same data loaded over data already held by the state: identical stored numbers, all entries declared observed before
+    # (binary outcomes: the all-observed version must itself be valid data, so the stored numbers are 0 / 1 there)
+    for label in (("0", "1") if spec["noise"] == "bernoulli" else ("0", "7.5")):
+        if only is not None and tuple(only) != (label, "reload"):
+            continue
+        if not n_masked0 or label not in list(fills) + ["0"] or "__exc__" in out0:
+            continue
+        ds = edited(ds0, fill_value(label), 0)
+        out = observe(model, spec, ds, preload=all_observed(ds))
+        acc.evaluation()
+        case = dict(base_case, fill=label, extra="reload")
+        acc.nontriv(repr(("stats", name_model, shape, pattern, label, "reload")))
+        if "__exc__" in out:
+            stage, typ, msg = out["__exc__"]
+            acc.violation(f"{stage}|raises {typ}|{noise}, data loaded over data already held", msg, case)
+            continue
+        same = True
+        for name, a in out0.items():
+            if name.startswith("__") or name not in out:
+                continue
+            why = compare_exact(name, a, out[name], real, nv0)
+            if why:
+                same = False
+                acc.violation(f"{_site(name)}|depends on the mask of the data held before|{noise}",
+                              f"{name}: {why}; in a new state {brief(a)}, loaded over the all-observed version of the same numbers {brief(out[name])}",
+                              case, expected=brief(a), observed=brief(out[name]))
+        acc.outcome(f"stats:reload:{'bit-identical' if same else 'differs'}")
     for label in fills:
         if label == "0":
             continue
@@ -704,6 +749,83 @@ def run_stats_base(acc, name_model, model, spec, shape, pattern, fills, extras=E
                     acc.count("variants in which the fill reached the state's data variables")
             res = compare(out, zero[extra], "fill", case, label)
             acc.outcome(f"stats:fill:{res}")
+
+
+# ------------------------------------------------------------------------------------------------------------
+# part "init": the data-driven initialisation of a new model (first step of every fit of an uninitialised model)
+
+INIT_MODELS = {
+    "quick": ["logistic_d2_s1_diag", "linear_d2_s0_scalar", "shared_d2_s1_diag", "joint_d2_s1_diag", "logistic_d1_s0_scalar"],
+    "thorough": ["logistic_d2_s0_diag", "logistic_d2_s1_diag", "logistic_d2_s1_scalar", "linear_d2_s1_diag", "linear_d2_s0_scalar",
+                 "shared_d2_s1_diag", "joint_d2_s1_diag", "logistic_d1_s0_scalar", "joint_d1_s0_scalar"],
+}
+INIT_SHAPES = {"quick": {2: [(1, 2), (2, 1, 1)], 1: [(1, 2), (1, 2, 3)]}, "thorough": {2: SHAPES_2FT, 1: SHAPES_1FT}}
+
+
+def new_model(spec):
+    """An uninitialised model of the kind (what a user builds before the first fit)."""
+    from leaspy.models import model_factory
+
+    kw = {"dimension": spec["dim"], "source_dimension": spec["ns"]}
+    if spec["kind"] == "joint":
+        kw["nb_events"] = 1
+        if not (spec["ns"] == 0 and spec["dim"] >= 1):
+            kw["obs_models"] = spec["noise"]
+    else:
+        kw["obs_models"] = spec["noise"]
+    return model_factory(spec["kind"], **kw)
+
+
+def initialised_parameters(spec, ds):
+    model = new_model(spec)
+    try:
+        with contextlib.redirect_stdout(io.StringIO()):
+            model.initialize(ds)
+        return {"param:" + k: v.detach().clone() for k, v in model.parameters.items()}
+    except Exception as e:  # judged by the caller
+        return {"__exc__": ("initialize", type(e).__name__, str(e)[:300])}
+
+
+def run_init_base(acc, name_model, spec, shape, pattern, fills, extras=EXTRAS, only=None):
+    noise = spec["noise"] if spec["dim"] > 1 or not spec["noise"].startswith("gaussian") else "gaussian-scalar"
+    ds0, df = cohort_dataset(spec, shape, pattern)
+    base_case = {"part": "init", "model": name_model, "shape": list(shape), "pattern": pattern}
+    ref = initialised_parameters(spec, edited(ds0, 0.0, 0))
+    acc.evaluation()
+    acc.outcome("init:" + ("raises " + ref["__exc__"][1] if "__exc__" in ref else "initialised"))
+    for label in fills:
+        for extra in extras:
+            if (label, extra) == ("0", 0) or (only is not None and (label, extra) != tuple(only)):
+                continue
+            out = initialised_parameters(spec, edited(ds0, fill_value(label), extra))
+            acc.evaluation()
+            case = dict(base_case, fill=label, extra=extra)
+            acc.nontriv(repr(("init", name_model, shape, pattern, label, extra)))
+            feature = f"{noise}, {fill_class(label)}" if label != "0" else f"{noise}, extra padding"
+            ea, eb = out.get("__exc__"), ref.get("__exc__")
+            if ea is not None or eb is not None:
+                if (ea is None) != (eb is None) or ea[1] != eb[1]:
+                    acc.violation(f"initialize|outcome depends on the numbers stored in the padding or at masked entries|{feature}",
+                                  f"loader's tensors: {eb or 'initialised'}; edited tensors: {ea or 'initialised'}", case)
+                continue
+            worst = "bit-identical"
+            for k, a in ref.items():
+                b = out.get(k)
+                if b is None or a.shape != b.shape:
+                    acc.violation(f"initialize|parameters differ|{feature}", f"{k}: {brief(a)} vs {brief(b) if b is not None else None}", case)
+                    continue
+                if same_tensor(a, b):
+                    continue
+                # only the amount of padding may change the rounding (longer reductions), by a few float32 ulps of the values involved
+                d = float((a.double() - b.double()).abs().max()) if bool(torch.isfinite(a).all() and torch.isfinite(b).all()) else float("inf")
+                tol = 64 * 2.0 ** -23 * (1.0 + float(a.double().abs().max())) if label == "0" else 0.0
+                if d > tol:
+                    what = "depends on the amount of padding" if label == "0" else "depends on the number stored at a masked position or in the padding"
+                    acc.violation(f"initialize[{k[6:]}]|{what}|{feature}", f"{k}: {brief(a)} with the loader's tensors, {brief(b)} with fill {label} and {extra} extra padded visit(s)",
+                                  case, expected=brief(a), observed=brief(b))
+                else:
+                    worst = "within rounding"
+            acc.outcome(f"init:{'fill' if label != '0' else 'padding'}:{worst}")
 
 
 # ------------------------------------------------------------------------------------------------------------
@@ -874,7 +996,13 @@ def bounds(tier):
     return {
         "stats": {"models": STATS_MODELS[tier], "shapes(2 features)": [list(s) for s in STATS_SHAPES[tier][2]],
                   "shapes(1 feature)": [list(s) for s in STATS_SHAPES[tier][1]], "patterns": "all (each individual keeps >= 1 observation)",
-                  "fills": FILL_ORDER + ["seed + 0.5"], "extra padding": list(EXTRAS)},
+                  "fills": FILL_ORDER + ["seed + 0.5"], "extra padding": list(EXTRAS),
+                  "data loaded over data already held": "same stored numbers (fill 0 and 7.5; 0 and 1 for binary outcomes) first loaded with every entry "
+                                                        "declared observed and read, then loaded with the real mask: every observable as in a new state"},
+        "data-driven initialisation": {"models": INIT_MODELS[tier], "shapes(2 features)": [list(s) for s in INIT_SHAPES[tier][2]],
+                                       "shapes(1 feature)": [list(s) for s in INIT_SHAPES[tier][1]], "patterns": "all",
+                                       "fills x extra padding": "full product" if tier == "thorough" else "fills 0, 7.5, nan, inf x extra 0, 1",
+                                       "observed": "every parameter after model.initialize(dataset) of a new model"},
         "fit + mode/mean posterior": {"models": SLOW_MODELS[tier], "shapes(2 features)": [list(s) for s in SLOW_SHAPES[tier][2]],
                                       "shapes(1 feature)": [list(s) for s in SLOW_SHAPES[tier][1]], "variants (fill, extra)": SLOW_VARIANTS[tier]},
         "scipy_minimize": {"models": SCIPY_MODELS[tier], "shapes(2 features)": [list(s) for s in SCIPY_SHAPES[tier][2]],
@@ -908,7 +1036,13 @@ def shards(tier, seed):
             for chunk in _chunks(patterns(shape, dim), 6):
                 out.append({"part": "slow", "model": name, "shape": list(shape), "patterns": chunk, "variants": SCIPY_VARIANTS[tier],
                             "algos": ["scipy_minimize"]})
-    order = {"stats": 0, "slow": 1}
+    for name in INIT_MODELS[tier]:
+        dim = MODEL_SPECS[name]["dim"]
+        for shape in INIT_SHAPES[tier][dim]:
+            for chunk in _chunks(patterns(shape, dim), 24):
+                out.append({"part": "init", "model": name, "shape": list(shape), "patterns": chunk,
+                            "fills": fills if tier == "thorough" else ["0", "7.5", "nan", "inf"], "extras": [0, 1, 2] if tier == "thorough" else [0, 1]})
+    order = {"stats": 0, "init": 0, "slow": 1}
     out.sort(key=lambda s: (order[s["part"]], sum(s["shape"]) * MODEL_SPECS[s["model"]]["dim"]))
     return out
 
@@ -924,6 +1058,9 @@ def run_shard(shard):
         acc.evaluation()
         for p in shard["patterns"]:
             run_stats_base(acc, name, model, spec, shape, p, shard["fills"], full=full)
+    elif shard["part"] == "init":
+        for p in shard["patterns"]:
+            run_init_base(acc, name, spec, shape, p, shard["fills"], extras=tuple(shard.get("extras", EXTRAS)))
     else:
         for p in shard["patterns"]:
             for algo in shard["algos"]:
@@ -937,12 +1074,14 @@ def replay(case):
     name = case["model"]
     spec = MODEL_SPECS[name]
     shape = tuple(case["shape"])
-    only = (str(case["fill"]), int(case["extra"]))
+    only = (str(case["fill"]), case["extra"] if case["extra"] == "reload" else int(case["extra"]))
     if case["part"] == "stats":
         model = build_model(spec)
-        fills = [only[0]] if only[0] != "0" else []
+        fills = [only[0]] if only[0] != "0" and only[1] != "reload" else []
         full = observe(model, spec, cohort_dataset(spec, shape, 0)[0])
         run_stats_base(acc, name, model, spec, shape, case["pattern"], fills, extras=EXTRAS, only=only, full=full)
+    elif case["part"] == "init":
+        run_init_base(acc, name, spec, shape, case["pattern"], [only[0]], only=only)
     else:
         run_slow_base(acc, case["part"], case["algo"], name, spec, shape, case["pattern"], [only] if only != ("0", 0) else [], only=None)
     return [{"signature": v["signature"], "message": v["message"]} for v in acc.violations.values()]
